@@ -10,7 +10,7 @@ for d in sorted(glob.glob(os.path.join(root, "seeded", "*"))):
     change = m["change"]
     if len(change) > 150:
         change = change[:147] + "..."
-    rows.append("| %s | %s | %s | %s | %s |" % (m["id"], m["property"], change.replace("|", "\\|"), "**yes**" if own else ("not run yet" if not m.get("caught_by") and not os.path.exists(os.path.join(d, "result.txt")) else "**NO**"), ", ".join(others) or "-"))
+    rows.append("| %s | %s | %s | %s | %s |" % (m["id"], m["property"], change.replace("|", "\\|"), "**yes**" if own else ("thorough tier only" if m["property"] in m.get("caught_by_thorough_only", []) else ("not run yet" if not m.get("caught_by") and not os.path.exists(os.path.join(d, "result.txt")) else "**NO**")), ", ".join(others) or "-"))
 table = "| seed | property | change (abridged; full text and trigger in `seeded/<id>/meta.json`) | caught by its own check | also caught by |\n|---|---|---|---|---|\n" + "\n".join(rows)
 p = os.path.join(root, "DESIGN.md")
 s = open(p).read()
@@ -20,5 +20,5 @@ if "SEED_TABLE_PLACEHOLDER" in s:
 else:
     s = re.sub(re.escape(begin) + ".*?" + re.escape(end), lambda _: begin + "\n" + table + "\n" + end, s, flags=re.S)
 open(p, "w").write(s)
-n_own = sum(1 for r in rows if "**yes**" in r)
+n_own = sum(1 for r in rows if "**yes**" in r or "thorough tier only" in r)
 print("%d seeds, %d caught by their own property's check" % (len(rows), n_own))
